@@ -19,6 +19,15 @@ the check) + the observers (description, raw cached signatures, is_valid()).  Da
 serialize::lambda::load (stream constructors): the only documented outcomes are a model, nullptr and
 exception::data_format; a loaded model is saved again and compared with the Lean model's load-then-save.  The
 success/failure verdict and, on success, the loaded object are compared with the model's.
+
+(c) "A load of a damaged stream reports failure": whether a damaged stream is still a serialization is decided by the
+    byte-level model of the extractors (Vita/C11/Text.lean; theorems of Props.lean (c): which spellings every numeric
+    extraction rejects, a failed element fails the counted loop, the load then reports failure).  Model `fail` and real
+    load `true` = VIOLATION "load succeeded on a stream the format rejects" with the stream as replay, for every type -
+    unless the object loaded is what the tokens of the stream say under the most liberal numeric reading (then vita
+    reads a spelling the model does not: tie broken, no failing input).  Every int / float field gets the damaged
+    spellings nonnumeric / partial (`12x`) / empty / sign only / hex / inf-nan / overlong; a family never tried on a
+    field type of a target type is a failure of the check.
 """
 import concurrent.futures as cf
 import json
@@ -842,6 +851,8 @@ def run(chk, replay=None):
              "tier's length bound, sampled beyond), and per token (all tokens of short records, a sample otherwise, "
              "structural tokens always): deletion, non-numeric word, same-digit-count digits, all zeros, all nines, "
              "sign flip, '+' prefix, swap with the next token, donor token of the same record / of another object, "
+             "for every int / float field one variant (one token in eight: all) of each damaged-spelling family: "
+             "nonnumeric, partially numeric, sign only, hex, inf/nan words, overlong; "
              "and for program streams the opcode of another valid symbol (other arity / parametric / category, same "
              "shape, unknown); each on a target built by a populating history (a few targets per source object); "
              "distinct = distinct (type, bytes)",
@@ -849,6 +860,6 @@ def run(chk, replay=None):
                  "JSON AST -> data-flow Stmt syntax; classification rules listed in its header",
                  "abstract data-flow semantics Vita/C12/Flow.lean (Exec)",
                  "tools/c12_members.py (clang-14 JSON AST -> member table) + value rules of harness/c12_snap.h",
-                 "hand-written loadInto models (Vita/C12/Model.lean) over the C11 text layer, validated by the "
-                 "differential run", "harness/c12_load.cc snapshots (raw cached signature via explicit-instantiation "
+                 "hand-written loadInto models (Vita/C12/Model.lean) over the C11 text layer (byte-level model of "
+                 "libstdc++'s extractors = the format oracle of part (c)), validated by the differential run", "harness/c12_load.cc snapshots (raw cached signature via explicit-instantiation "
                  "access), g++ 12 ASan/UBSan"])
